@@ -349,8 +349,8 @@ PROPS = {
         "assumptions": ["permutation indices are in range (the crate indexes perm[rank] unchecked otherwise)"],
     },
     "C10": {
-        "lean_modules": ["Dbg.Props.C10"],
-        "theorems": ["Kmer.shipped_wf", "Kmer.shipped_count", "Kmer.C10_get", "Kmer.C10_set", "Kmer.C10_set_inv", "Kmer.C10_extendRight",
+        "lean_modules": ["Dbg.Props.C10", "Dbg.Props.C10b"],
+        "theorems": ["Kmer.C10_hd1_strings", "KSpec.hd1_sound", "KSpec.hd1_complete", "KSpec.hd1_length", "Kmer.shipped_wf", "Kmer.shipped_count", "Kmer.C10_get", "Kmer.C10_set", "Kmer.C10_set_inv", "Kmer.C10_extendRight",
                      "Kmer.C10_extendLeft", "Kmer.C10_fromBytes", "Kmer.C10_rc", "Kmer.C10_toU64", "Kmer.C10_setSlice", "Kmer.C10_fromU64",
                      "Kmer.C10_u64_roundtrip", "Kmer.C10_toString", "Kmer.C10_fromAscii", "Kmer.C10_kmersFromBytes", "Kmer.C10_kmersFromAscii",
                      "Kmer.C10_hamming", "Kmer.C10_atCount", "Kmer.C10_gcCount"],
@@ -541,8 +541,8 @@ PROPS = {
         "assumptions": ["pruning slices sorted by key (what filter_kmers + sort deliver)"],
     },
     "C09": {
-        "lean_modules": ["Dbg.Props.C09", "Dbg.Props.C09b", "Dbg.Props.C09c"],
-        "theorems": ["CompressGraph.C09_idempotent", "CompressGraph.C09_result_wellformed", "Compress.pgraph_compressGraph", "Compress.pgraph_recompress_idem", "CompressGraph.C09_recompress_eq_direct", "CompressGraph.C09_char", "CompressGraph.C09_char_of_built", "CompressGraph.rinv_fixExts", "CompressGraph.glinkV_sym", "CompressGraph.extendNode_refines", "CompressGraph.static_ok", "CompressGraph.palEnd_of_compress", "CompressGraph.C09_kmers_cover", "CompressGraph.C09_no_dangling", "CompressGraph.buildNode_kmers", "CompressGraph.buildNode_payload", "CompressGraph.fixExts_exact", "CompressGraph.extendNode_chain", "CompressGraph.C09_censored_excluded", "CompressGraph.extendNode_ok", "CompressGraph.buildNode_ok", "CompressGraph.compressLoop_ok"],
+        "lean_modules": ["Dbg.Props.C09", "Dbg.Props.C09b", "Dbg.Props.C09c", "Dbg.Props.C09d"],
+        "theorems": ["Graph.C09_findBadNodes", "CompressGraph.C09_idempotent", "CompressGraph.C09_result_wellformed", "Compress.pgraph_compressGraph", "Compress.pgraph_recompress_idem", "CompressGraph.C09_recompress_eq_direct", "CompressGraph.C09_char", "CompressGraph.C09_char_of_built", "CompressGraph.rinv_fixExts", "CompressGraph.glinkV_sym", "CompressGraph.extendNode_refines", "CompressGraph.static_ok", "CompressGraph.palEnd_of_compress", "CompressGraph.C09_kmers_cover", "CompressGraph.C09_no_dangling", "CompressGraph.buildNode_kmers", "CompressGraph.buildNode_payload", "CompressGraph.fixExts_exact", "CompressGraph.extendNode_chain", "CompressGraph.C09_censored_excluded", "CompressGraph.extendNode_ok", "CompressGraph.buildNode_ok", "CompressGraph.compressLoop_ok"],
         "partial": [],
         "n_quick": 2500, "n_thorough": 150000,
         "nontrivial": lambda toks, impl: impl not in ("panic", "-") and toks[8].count(",") >= 2, "tags": _c09_tags,
